@@ -218,7 +218,7 @@ func bubbleUpNullValuesInPlaceRec(schema *ast.Schema, currentType *ast.Type, sel
 						})
 						bubbleUp = true
 					}
-					return
+					continue
 				}
 				if field.SelectionSet != nil {
 					lowerErrs, lowerBubbleUp, lowerErr := bubbleUpNullValuesInPlaceRec(schema, field.Definition.Type, field.SelectionSet, value, append(path, ast.PathName(field.Alias)))
